@@ -23,6 +23,10 @@ type XOp struct {
 	Side  string `json:"side,omitempty"`
 	Hours int    `json:"hours,omitempty"`
 	Fail  int    `json:"fail,omitempty"`
+	// Incomplete (rec): if this record is the one that completes the correlation of a withheld flow,
+	// it lacks an element the process is configured to aggregate (the process reports an error for
+	// it, but both nodes have then been received).
+	Incomplete bool `json:"incomplete,omitempty"`
 }
 
 // XCase is a history against one aggregation process.
@@ -31,11 +35,14 @@ type XCase struct {
 	InactiveSec int       `json:"inactive_s"`
 	Flows       []FlowDef `json:"flows"`
 	Ops         []XOp     `json:"ops"`
+	// LayoutS / LayoutD: element order used by the source-node / destination-node exporter
+	LayoutS int `json:"layout_s,omitempty"`
+	LayoutD int `json:"layout_d,omitempty"`
 }
 
 // XStats is what a run observed.
 type XStats struct {
-	FiredAfterUpdate, FailingCallback, TwoActiveExports, Correlated, RetryThenPeer, DroppedUncorrelated, BothOrders bool
+	FiredAfterUpdate, FailingCallback, TwoActiveExports, Correlated, RetryThenPeer, DroppedUncorrelated, BothOrders, IncompleteCorrelating bool
 	firstSides                                                                                               map[string]bool
 }
 
@@ -73,13 +80,31 @@ func RunX(c XCase, st *XStats) *ev.Failure {
 				}
 			}
 			ends[k] += 2
-			r := Rec{Flow: fi, Side: side, Start: 1000, End: ends[k], Tot: [4]uint64{uint64(ends[k]), uint64(ends[k]) * 100, 1, 2}, Dlt: [4]uint64{1, 100, 1, 2}}
+			r := Rec{Flow: fi, Side: side, Start: 1000, End: ends[k], Tot: [4]uint64{uint64(ends[k]), uint64(ends[k]) * 100, 1, 2}, Dlt: [4]uint64{1, 100, 1, 2}, Layout: c.LayoutS}
+			if side == "D" {
+				r.Layout = c.LayoutD
+			}
 			held := m.Flows[fi] != nil
-			if err := ap.AggregateMsgByFlowKey(Message(c.Flows, r)); err != nil {
+			correlating := false
+			if x := m.Flows[fi]; x != nil && !x.Ready && side != x.FirstSide {
+				correlating = true
+				if retried[fi] {
+					st.RetryThenPeer = true
+				}
+			}
+			r.Incomplete = o.Incomplete && correlating
+			err := ap.AggregateMsgByFlowKey(Message(c.Flows, r))
+			if err != nil && !r.Incomplete {
 				return ev.Failf("op %d: AggregateMsgByFlowKey: %v", i, err)
 			}
-			if x := m.Flows[fi]; x != nil && !x.Ready && side != x.FirstSide && retried[fi] {
-				st.RetryThenPeer = true
+			if r.Incomplete && err != nil {
+				// the record was received (both nodes have now been seen) but its update was refused:
+				// the deadlines stay as they were
+				x := m.Flows[fi]
+				x.Ready = true
+				x.Sides[side] = true
+				st.IncompleteCorrelating = true
+				break
 			}
 			m.Ingest(fi, f, r)
 			if held {
